@@ -222,6 +222,10 @@ struct Run<'g> {
     next_tok: Tok,
     out: PathOutcome,
     conversions: usize,
+    /// imbalance of live values already reported on this path: later operations are judged on
+    /// what *they* add to it, so that a defect of a constructor does not hide one of a clone
+    live_bias: isize,
+    zst_bias: isize,
 }
 
 impl<'g> Run<'g> {
@@ -229,7 +233,7 @@ impl<'g> Run<'g> {
         let meta = g.meta().clone();
         ledger::reset();
         let _ = hook_events();
-        Run { g, meta, model: [None, None], next_tok: 11, out: PathOutcome::default(), conversions: 0 }
+        Run { g, meta, model: [None, None], next_tok: 11, out: PathOutcome::default(), conversions: 0, live_bias: 0, zst_bias: 0 }
     }
 
     fn tok(&mut self) -> Tok {
@@ -266,24 +270,38 @@ impl<'g> Run<'g> {
             let kind = if errs[0].contains("double drop") { "double-drop" } else { "bad-drop" };
             self.find(ledger_prop, format!("{}/{}/{}", ledger_prop, kind, op), format!("after {}: {}", op, errs.join("; ")));
         }
-        // number of live instrumented values
+        // number of live instrumented values (all of them, and the zero-size ones on their own)
         if !self.out.poisoned {
-            let mut want = 0usize;
+            let (mut want, mut want_zst) = (0isize, 0isize);
             for m in self.model.iter().flatten() {
-                let n = self.meta.variants[m.variant].fields.iter().filter(|d| self.meta.data[**d].droppable).count();
-                want += n * if m.place == Placement::InVec { 2 } else { 1 };
+                let k = if m.place == Placement::InVec { 2 } else { 1 };
+                let fields = &self.meta.variants[m.variant].fields;
+                want += k * fields.iter().filter(|d| self.meta.data[**d].droppable).count() as isize;
+                want_zst += k * fields.iter().filter(|d| self.meta.data[**d].droppable && self.meta.data[**d].zst).count() as isize;
             }
-            let got = ledger::live_count();
-            if got != want {
-                let kind = if got > want { "leak" } else { "destroyed-early" };
+            let got = ledger::live_count() as isize;
+            let got_zst: isize = ledger::summary().zst_live.iter().map(|(_, n)| (*n).max(0) as isize).sum();
+            if got - self.live_bias != want {
+                let kind = if got - self.live_bias > want { "leak" } else { "destroyed-early" };
                 self.find(
                     ledger_prop,
                     format!("{}/{}/{}", ledger_prop, kind, op),
-                    format!("after {}: {} instrumented values are alive, the records hold {}; {}", op, got, want, ledger::summary().describe()),
+                    format!("after {}: {} instrumented values are alive, the records hold {}{}; {}", op, got, want, if self.live_bias != 0 { format!(" (an imbalance of {} was reported earlier on this path)", self.live_bias) } else { String::new() }, ledger::summary().describe()),
                 );
-                // avoid repeating the same imbalance after every later step
-                self.out.poisoned = true;
+                // later operations are judged on what they add to the imbalance
+                self.live_bias = got - want;
             }
+            // a zero-size value occupies no byte, so the storage shadow cannot see it: a record that
+            // holds such a value which is already destroyed will read a dead value when it is next
+            // unpacked, converted or dropped
+            if got_zst - self.zst_bias < want_zst {
+                self.find(
+                    "C07",
+                    format!("C07/zero-size-value-dead-while-held/{}", op),
+                    format!("after {}: the records hold {} zero-size droppable values, {} are alive: a value that was never stored, or was moved out, will be read; {}", op, want_zst, got_zst, ledger::summary().describe()),
+                );
+            }
+            self.zst_bias = got_zst - want_zst;
         }
         for m in self.model.iter().flatten() {
             let uninit: Vec<usize> = m.vals.iter().filter(|(_, v)| v.is_none()).map(|(d, _)| *d).collect();
